@@ -265,7 +265,7 @@ PROPS["C12"] = {
                  "RCE.Props.C12.avoidable_mate_avoided_partial", "RCE.Props.C12.avoidable_mate_avoided_again", "RCE.Props.C12.avoidable_mate_statement_refuted",
                  "RCE.Props.C12.mate_in_two_kept_partial", "RCE.Props.C12.mate_in_two_kept_four", "RCE.Props.C12.mate_in_two_statement_refuted",
                  "RCE.Props.C12.chess_mates_iff", "RCE.Props.C12.chess_mate_in_one_by_the_rules"],
-    "streams": {"quick": [S("search-mate", "mate", 128, 4)], "thorough": [S("search-mate", "mate", 3200, 5), SK_T]},
+    "streams": {"quick": [S("search-mate", "mate", 160, 4)], "thorough": [S("search-mate", "mate", 3200, 5), SK_T]},
     "eval_key": "cases", "distinct_key": "distinct_cases",
     "rule": SEARCH_RULE + "; for C12: positions WITHOUT history and with a small half-move clock are mined by brute force (sparse random positions and random play from the seeds) so that a third has a mate in one, "
             "a third a forced mate in two, a third an avoidable mate-in-one threat; each is searched to depth 3 and 4 from an empty cache and again after earlier completed searches of the same position at the other "
